@@ -310,3 +310,47 @@ def gen_exc_payload(rng, vocab):
     if c == 8:
         return rng.choice([1, 0, 2, "string exception", b"bytes", (), None, True, 1.0])
     return (name, args, attrs, tb)
+
+
+# ---- families of EQUAL values of DIFFERENT types (1 == 1.0 == True == (1+0j)): anything keyed by equality inside the library
+# (a cache of encodings, a memo of boxed values) confuses them, and only a SEQUENCE in one process shows it
+_TWIN_LEAVES = {0: [0, 0.0, False, 0j, -0.0], 1: [1, 1.0, True, (1 + 0j)], 2: [2, 2.0, (2 + 0j)], -1: [-1, -1.0, (-1 + 0j)],
+                255: [255, 255.0], 2 ** 31: [2 ** 31, float(2 ** 31)]}
+
+
+def _retype(v, rng):
+    if type(v) is tuple:
+        return tuple(_retype(x, rng) for x in v)
+    if type(v) is int and v in _TWIN_LEAVES:
+        return rng.choice(_TWIN_LEAVES[v])
+    return v
+
+
+def gen_twin_family(rng):
+    """-> a list of 3-5 plain immutable values that compare (mostly) equal to one another but differ in the exact types of their
+    numeric members, in random order with repeats: tuples of every small length, text-first (the shape of an id pack) or not,
+    flat or nested, and bare numbers"""
+    keys = list(_TWIN_LEAVES)
+
+    def base(depth):
+        c = rng.randrange(8)
+        if c == 0 and depth:
+            return rng.choice(keys)
+        n = rng.choice([1, 2, 3, 3, 3, 4, 5])
+        items = []
+        for i in range(n):
+            r = rng.random()
+            if i == 0 and r < .6:
+                items.append(rng.choice(["scale", "a", "builtins.int", ""]))
+            elif r < .75 or depth >= 2:
+                items.append(rng.choice(keys))
+            elif r < .85:
+                items.append(rng.choice(["x", b"x", None]))
+            else:
+                items.append(base(depth + 1))
+        return tuple(items)
+    b = rng.choice(keys) if rng.random() < .1 else base(0)
+    fam = [_retype(b, rng) for _ in range(rng.randrange(3, 6))]
+    fam.append(b)
+    rng.shuffle(fam)
+    return fam
